@@ -211,4 +211,14 @@ for _f, _id in ((guard_read, "C07.GUARD-read"), (wmw_value, "C07.WMW-value"), (w
                 (tyg_by_value, "C07.TYG-by-value")):
     _f.rule_id = _id
 
-RULES = [guard_read, wmw_value, wmw_inuse, tyg_by_value]
+def sib_var_slot(ctx, prog):
+    """The var's value slot is part of the snapshot: while Stabilising no write path of Var may touch it
+    (the deferred slot takes the write). Same table as C08.SIB-writes, reported under C07."""
+    from .engine import run_relabelled
+    from .c08 import sib_writes
+    run_relabelled(ctx, prog, sib_writes, "C08.SIB-writes", "C07.SIB-var-slot")
+
+
+sib_var_slot.rule_id = "C07.SIB-var-slot"
+
+RULES = [guard_read, wmw_value, wmw_inuse, tyg_by_value, sib_var_slot]
